@@ -6,6 +6,8 @@ import (
 	"encoding/binary"
 	"fmt"
 	"io"
+	"os"
+	"strings"
 
 	"github.com/M2MGateway/go-smpp/pdu"
 )
@@ -96,11 +98,16 @@ func c16Scenario(r *Run, ts []pduType, idx int) {
 		batch = c16Pending{}
 		grants()
 	}
+	dead := false // a frame ended the connection
 	n := 3 + rng.Intn(12)
-	for i := 0; i < n && w.Stuck == ""; i++ {
+	for i := 0; i < n && w.Stuck == "" && !dead; i++ {
 		var f []byte
-		k := rng.Intn(13)
-		if idx%8 == 1 && i == 0 {
+		k := rng.Intn(15)
+		if idx%8 == 4 && i <= 1 {
+			k = 13
+		} else if idx%8 == 5 && i <= 1 {
+			k = 14
+		} else if idx%8 == 1 && i == 0 {
 			k = 7
 		} else if idx%8 == 2 && i == 0 {
 			k = 8
@@ -194,6 +201,55 @@ func c16Scenario(r *Run, ts []pduType, idx int) {
 				wantApp = append(wantApp, Delivery{5, s})
 				hist["item/status-with-body-over-4096"]++
 			}
+		case k == 13:
+			// an undecodable frame that carries the sequence number of a STILL OUTSTANDING request — half of them of the
+			// response type paired with that request: it is answered by generic_nack like any other, nothing is delivered,
+			// and the waiter is not handed what the decoder rejected: the Submit goes on waiting for its response
+			var open []*Call
+			for _, c := range reqs {
+				if !answered[c.ID] && w.Written(c) && !w.Returned(c) {
+					open = append(open, c)
+				}
+			}
+			if len(open) == 0 {
+				continue
+			}
+			c := open[rng.Intn(len(open))]
+			if rng.Bool() {
+				f = genBadFrameOfID(rng, idOfPDU(c.P)|0x80000000, c.Seq)
+			}
+			if f == nil {
+				f = genBadFrame(rng, ts, c.Seq)
+			}
+			batch.nack = true
+			wantNack = append(wantNack, c.Seq)
+			sawBad = true
+			hist["item/undecodable-with-the-number-of-an-outstanding-request"]++
+		case k == 14:
+			// the pdu engine's hostile frames: whatever they are to the decoder, Watch survives them
+			s := fresh()
+			var class string
+			f, class = genHostileFrame(rng, ts, s)
+			hist["item/hostile/"+class]++
+			switch kind, id, q := classifyFrame(f); kind {
+			case "pdu":
+				wantApp = append(wantApp, Delivery{id, q})
+				if sawBad {
+					badThenGood = true
+				}
+			case "bad":
+				batch.nack = true
+				if q > 0 {
+					wantNack = append(wantNack, q)
+				}
+				sawBad = true
+			default:
+				// a frame after which Watch cannot go on (or on which this tree's ReadPDU panics): the history ends with it
+				dead = true
+				if os.Getenv("VERIF_DEBUG_C16") != "" {
+					fmt.Fprintf(os.Stderr, "c16 idx=%d hostile fatal: class=%s kind=%s len=%d %x\n", idx, class, kind, len(f), f[:min(len(f), 80)])
+				}
+			}
 		case k == 12:
 			// a Submit that ends WITHOUT ever having been sent — its PDU refused by Marshal at some stage, or the transport's
 			// Write failing — leaves nothing behind: a PDU of the peer (request or response type) that carries its sequence
@@ -260,7 +316,7 @@ func c16Scenario(r *Run, ts []pduType, idx int) {
 	}
 	// the connection is still alive: one more PDU is delivered
 	probe := genUnsolicited(rng, ts, fresh())
-	{
+	if !dead {
 		_, id, s := classifyFrame(probe)
 		wantApp = append(wantApp, Delivery{id, s})
 		w.Peer([][]byte{probe}, nil)
@@ -269,7 +325,13 @@ func c16Scenario(r *Run, ts []pduType, idx int) {
 		}
 	}
 	end := rng.Intn(4)
+	if dead {
+		end = 9
+	}
 	switch end {
+	case 9:
+		end = 2 // the hostile frame was the fatal one
+		hist["end/hostile-frame"]++
 	case 1:
 		w.PeerEnd(io.EOF)
 		hist["end/eof"]++
@@ -294,6 +356,14 @@ func c16Scenario(r *Run, ts []pduType, idx int) {
 	}
 	for _, p := range w.Panics() {
 		r.Fail("panic", "a library goroutine panicked", input, p, "no panic")
+	}
+	if w.watchPanic != "" {
+		last := ""
+		if g := w.groups; len(g) > 0 {
+			last = strings.Join(g[len(g)-1], "; ")
+		}
+		r.Fail("watch-died", "Watch died of a panic while reading an inbound frame", "inbound frame(s) "+head(last, 1200)+" in "+head(input, 1500), w.watchPanic,
+			"whatever octets arrive, Watch delivers, answers with generic_nack or returns")
 	}
 	// deliveries: exactly the expected PDUs, once, in arrival order
 	got := w.App()
